@@ -573,7 +573,7 @@ pub fn run(ctx: &mut Ctx) {
     let q = ctx.quick();
 
     // ---- generated voices: all systematic single faults + structural text faults
-    let nvoices = ctx.n(20, 400);
+    let nvoices = ctx.n(48, 400);
     ctx.run_cases("generated", nvoices, false, |ctx, rng, idx| {
         let mut o = VoiceOpts::random(rng);
         if idx % 3 == 0 {
